@@ -194,15 +194,16 @@ CHECKS = {
     ),
     "C18": dict(
         level="model_checking",
-        rule="all enabled operation sequences up to length 5 (thorough 7; 3 subscribers / 2 resources: one less) over subscribe, subscribe to an undiscovered resource, addHandler, addHandler with own resync period, removeHandlers, close (remove+close as production does), object add/update/delete, tick of a handler's own resync timer; "
+        rule="all enabled operation sequences up to length 5 (thorough 7; 3 subscribers / 2 resources: one less) (part 1) over subscribe, subscribe to an undiscovered resource, addHandler, addHandler with own resync period, removeHandlers, close (remove+close as production does), object add/update/delete, tick of a handler's own resync timer; "
              "after every operation the real factory/wrapper is compared with the reference model: refcount, informer running iff subscribed, LIST per incarnation, watch streams open, per-handler event sequence (add-time replay, later events, silence after removal)",
         rewrite_sync=True,
         units=[
             dict(pkg=INFORMER, test="TestVerifC18", shards=dict(quick=16, thorough=16), budget=dict(quick=600, thorough=3000)),
+            dict(pkg=INFORMER, test="TestVerifC18Conc", shards=dict(quick=4, thorough=6), budget=dict(quick=600, thorough=3000)),
             dict(pkg=INFORMER, test="TestVerifC18Race", race=True, shards=1, budget=dict(quick=600, thorough=1800), env=dict(GOMAXPROCS="8")),
         ],
         assumptions=["client-go's SharedIndexInformer is replaced by the deterministic vcache informer (list-watch mode against the sim); the per-handler resync ticker is fired by the harness (vtime import rewrite); everything else in factory.go / informer.go is the real code",
-                     "interleavings below operation granularity (inside the factory / handler-list locks) are not enumerated; the free-running race-detector pass over concurrent operations is supplementary (sampling)"],
+                     "lock-level interleavings: factory.go / informer.go are additionally built against vsync (import rewrite of sync), every Lock/RLock of a scheduler thread is a scheduling point; 4 (thorough 6) concurrent programs of 2-3 threads, all schedules with <= 2 (3) preemptions, outcome must equal a sequential order under the reference model; unsynchronised accesses (no lock at all) are invisible to this and only probed by the supplementary race-detector pass"],
         traces_are_evals=True,
     ),
     "C20": dict(
